@@ -33,12 +33,17 @@ func runCase(c *wk.Ctx, i int) {
 		// option sets that sit above the slowdown trigger pay 1 ms per write
 		nops = 300 + r.Intn(900)
 	}
+	bigKeys := i%10 == 7
+	if bigKeys {
+		nkeys, nops = 40+r.Intn(160), 150+r.Intn(450)
+		os.Desc["keys_of_several_KiB"] = true
+	}
 	c.Begin(i, fmt.Sprintf("opts=%v nkeys=%d nops=%d", os.Desc, nkeys, nops))
 	var mm error
 	var ru *dbx.Runner
 	panicked := c.Guard(i, "C01 program", func() {
 		var err error
-		ru, err = dbx.NewRunner(r, os, nkeys, false)
+		ru, err = dbx.NewRunnerBig(r, os, nkeys, false, bigKeys)
 		if err != nil {
 			mm = fmt.Errorf("open of a fresh storage failed: %v", err)
 			return
@@ -67,6 +72,9 @@ func runCase(c *wk.Ctx, i int) {
 			c.Count(k, v)
 		}
 		c.Count("comparer:"+os.O.Comparer.Name(), 1)
+		if bigKeys {
+			c.Count("programs_with_keys_of_several_KiB", 1)
+		}
 		c.Count("memdb_flushes", int64(ru.LogContains("memdb@flush committed")))
 		c.Count("table_compactions", int64(ru.LogContains("table@compaction committed")))
 		c.Count("trivial_moves", int64(ru.LogContains("table@move")))
